@@ -143,7 +143,7 @@ def validate(reference_sources, estimated_sources):
 def _any_source_silent(sources):
     """Return true if the parameter sources has any silent first dimensions"""
     return np.any(
-        np.all(np.sum(sources, axis=tuple(range(2, sources.ndim))) == 0, axis=1)
+        np.all(np.sum(np.abs(sources), axis=tuple(range(2, sources.ndim))) == 0, axis=1)
     )
 
 
